@@ -52,11 +52,17 @@ func ToDateTime64(t time.Time, p Precision) DateTime64 {
 	if t.IsZero() {
 		return 0
 	}
-	return DateTime64(t.UnixNano() / p.Scale())
+	// Scale seconds and the sub-second part separately: UnixNano is only
+	// defined for years 1678..2262, which is narrower than DateTime64.
+	scale := p.Scale()
+	return DateTime64(t.Unix()*(1e9/scale) + int64(t.Nanosecond())/scale)
 }
 
 // Time returns DateTime64 as time.Time.
 func (d DateTime64) Time(p Precision) time.Time {
-	nsec := int64(d) * p.Scale()
-	return time.Unix(nsec/1e9, nsec%1e9)
+	// Split into seconds and sub-second ticks before scaling, so that
+	// values outside 1678..2262 do not overflow int64 nanoseconds.
+	scale := p.Scale()
+	perSec := int64(1e9) / scale
+	return time.Unix(int64(d)/perSec, (int64(d)%perSec)*scale)
 }
